@@ -401,6 +401,36 @@ func blsExtras(r *rand.Rand) {
 	v2, e2 := crypto.VerifyBLSSignatureManyMessages(mpks, asg, msgs, hss)
 	v3, e3 := crypto.VerifyBLSSignatureManyMessages(mpks[:8], asg, msgs[:8], hss[:8])
 	emits("bls_many_verify", id, fmt.Sprint(v1, e1, v2, e2, v3, e3))
+	// many DISTINCT keys and messages in one call: the number of pairs in the multi-pairing crosses the
+	// batch sizes of the Miller loop (8, 16, 32 pairs and one more) and the key / message grouping tables
+	{
+		var wk []crypto.PrivateKey
+		var wp []crypto.PublicKey
+		var wm [][]byte
+		var wh []hash.Hasher
+		var ws []crypto.Signature
+		for j := 0; j < 41; j++ {
+			k, _ := crypto.GeneratePrivateKey(crypto.BLSBLS12381, rb(r, 32))
+			m := append(rb(r, 5), byte(j))
+			sg, _ := k.Sign(m, h1)
+			wk, wp, wm, wh, ws = append(wk, k), append(wp, k.PublicKey()), append(wm, m), append(wh, h1), append(ws, sg)
+		}
+		out := ""
+		for _, k := range []int{1, 6, 7, 8, 9, 14, 15, 16, 17, 23, 30, 31, 32, 33, 40, 41} {
+			a, err := crypto.AggregateBLSSignatures(ws[:k])
+			if err != nil {
+				out += " error"
+				continue
+			}
+			v, e := crypto.VerifyBLSSignatureManyMessages(wp[:k], a, wm[:k], wh[:k])
+			// one wrong message among them
+			wm2 := append([][]byte{}, wm[:k]...)
+			wm2[k-1] = []byte("another")
+			v2, e2 := crypto.VerifyBLSSignatureManyMessages(wp[:k], a, wm2, wh[:k])
+			out += fmt.Sprint(" ", k, v, e, v2, e2)
+		}
+		emits("bls_many_wide", id, out)
+	}
 	// SPoCK against data, compressed keys
 	pr, _ := crypto.SPOCKProve(sks[0], base[2], h1)
 	s1, e1 := crypto.SPOCKVerifyAgainstData(pks[0], pr, base[2], h1)
